@@ -55,13 +55,21 @@ void ds_history_end(vp_hist_t* h, const char* ctx) {
   }
   static int sampled;
   if (sampled < 3 && h->n > 0) {
-    // write out the first few operations of an actual history
-    char buf[1400];
-    size_t off = 0, i;
-    off += snprintf(buf + off, sizeof(buf) - off, "%s: %zu ops; first: ", ctx, h->n);
-    for (i = 0; i < h->n && i < 24 && off < sizeof(buf) - 60; ++i) {
+    // write out a slice of an actual history, starting where operations of different threads first overlap
+    char buf[1600];
+    size_t off = 0, i, start = 0;
+    uint64_t maxret = 0;
+    for (i = 0; i < h->n; ++i) {
+      if (h->ops[i].inv < maxret) {
+        start = i > 2 ? i - 2 : 0;
+        break;
+      }
+      if (h->ops[i].ret > maxret) maxret = h->ops[i].ret;
+    }
+    off += snprintf(buf + off, sizeof(buf) - off, "%s: %zu ops; from op %zu (thread op result value invoked-returned): ", ctx, h->n, start);
+    for (i = start; i < h->n && i < start + 22 && off < sizeof(buf) - 70; ++i) {
       const vp_op_t* o = &h->ops[i];
-      off += snprintf(buf + off, sizeof(buf) - off, "[t%u %s %s v=%llx %llu-%llu] ", o->thr,
+      off += snprintf(buf + off, sizeof(buf) - off, "[t%u %s %s %llx %llu-%llu] ", o->thr,
                       o->op == VP_OP_PUSH ? "push" : (o->op == VP_OP_POP ? "pop" : "steal"),
                       o->res == VP_RES_OK ? "ok" : (o->res == VP_RES_EMPTY ? "empty" : (o->res == VP_RES_ABORT ? "abort" : "fail")),
                       (unsigned long long)o->val, (unsigned long long)o->inv, (unsigned long long)o->ret);
